@@ -62,11 +62,50 @@ def rand_sterm(rng, o, vars_, depth, pvar=0.45, anon=True):
         return ['fun', rng.choice(['-', '+']), [rand_sterm(rng, o, vars_, depth - 1, pvar, anon)]]
     return rand_atom(rng, o)
 
+def generalize(rng, t, vars_):
+    """a term that is (nearly) unifiable with t: subterms replaced by variables, proper lists re-spelled as
+    [H|T] patterns, occasionally one leaf changed"""
+    k = t[0]
+    r = rng.random()
+    if r < 0.2:
+        return V(rng.choice(vars_ + ['_']))
+    if k == 'list' and t[1]:
+        items = [generalize(rng, x, vars_) for x in t[1]]
+        q = rng.random()
+        if q < 0.5:
+            n = rng.randrange(1, len(items) + 1)
+            tail = V(rng.choice(vars_ + ['_']))      # the grammar only allows a variable after |
+            out = tail
+            for x in reversed(items[:n]):
+                out = ['pair', x, out]
+            return out
+        return ['list', items]
+    if k == 'pair':
+        tl = generalize(rng, t[2], vars_)
+        if tl[0] not in ('var', 'pair'):
+            tl = t[2]
+        return ['pair', generalize(rng, t[1], vars_), tl]
+    if k == 'fun':
+        return ['fun', t[1], [generalize(rng, x, vars_) for x in t[2]]]
+    if k == 'atom' and r > 0.93:
+        return A(rng.choice(ATOMS))
+    return t
+
 def _goal(rng, o, callees, vars_, depth=2):
     """an atomic goal"""
     r = rng.random()
     if o.eqneq and r < 0.22:
         op = '=' if rng.random() < 0.7 else '\\='
+        if rng.random() < 0.4:
+            # a structured term against a generalisation / re-spelling of itself (list literal vs [H|T] pattern,
+            # subterms replaced by variables, one leaf changed): most such pairs nearly unify
+            t1 = rand_sterm(rng, o, vars_, 3, pvar=0.25)
+            if rng.random() < 0.5:
+                t1 = ['list', [rand_sterm(rng, o, vars_, 1, pvar=0.25) for _ in range(rng.randrange(1, 4))]]
+                if rng.random() < 0.4:
+                    t1 = ['fun', rng.choice(['f', 'g']), [t1]]
+            t2 = generalize(rng, t1, vars_ or ['W'])
+            return ['call', op, [t1, t2] if rng.random() < 0.5 else [t2, t1]]
         lhs = V(rng.choice(vars_)) if vars_ and rng.random() < 0.8 else rand_sterm(rng, o, vars_, 1)
         if vars_ and rng.random() < 0.3:
             return ['call', op, [lhs, V(rng.choice(vars_))]]      # aliasing of two variables
@@ -238,6 +277,53 @@ def gen_program(rng, o):
                 elif name == 'app': args = rng.choice([[V('Q0'), V('Q2'), lst], [lst, ['list', [A('c')]], V('Q0')], [lst, V('Q0'), V('Q2')]])
                 else: args = [lst, V('Q0')]
             queries.append([name, args])
+    return {'clauses': clauses, 'queries': queries}
+
+def _conj(goals):
+    out = goals[-1]
+    for g in reversed(goals[:-1]):
+        out = ['and', g, out]
+    return out
+
+def gen_alias_program(rng):
+    """programs about variable-variable bindings: predicates whose clauses only alias their arguments (in different
+    ways in different clauses, so that backtracking undoes one aliasing and makes another), called from a clause
+    that aliases, calls, looks at and finally binds the variables; queries with unbound and shared arguments"""
+    clauses = []
+    nch = rng.randrange(1, 3)
+    for i in range(nch):
+        for _ in range(rng.randrange(2, 4)):
+            goals = []
+            for _ in range(rng.randrange(1, 3)):
+                a, b = rng.sample(['X', 'Y', 'Z', 'T'], 2)
+                goals.append(['call', '=', [V(a), V(b)]])
+            if rng.random() < 0.25:
+                goals.append(['call', '=', [V(rng.choice(['X', 'Y', 'Z'])), rng.choice([A('k'), F('f', V('T')), V('_')])]])
+            clauses.append(['ch%d' % i, [V('X'), V('Y'), V('Z')], _conj(goals)])
+    clauses.append(['touch', [V('_'), V('_')], ['true']])
+    clauses.append(['same', [V('X'), V('X')], ['true']])
+    clauses.append(['pick', [A('a')], ['true']]); clauses.append(['pick', [A('b')], ['true']])
+    mv = ['A', 'B', 'C', 'D', 'E']
+    for _ in range(rng.randrange(1, 3)):
+        goals = []
+        for _ in range(rng.randrange(4, 9)):
+            r = rng.random()
+            if r < 0.25:
+                a, b = rng.sample(mv, 2); goals.append(['call', '=', [V(a), V(b)]])
+            elif r < 0.5:
+                goals.append(['call', 'ch%d' % rng.randrange(nch), [V(x) for x in rng.sample(mv, 3)]])
+            elif r < 0.62:
+                goals.append(['call', 'touch', [V(rng.choice(mv)), V(rng.choice(mv + ['_']))]])
+            elif r < 0.72:
+                goals.append(['call', 'same', [V(rng.choice(mv)), V(rng.choice(mv))]])
+            elif r < 0.82:
+                goals.append(['call', 'pick', [V(rng.choice(mv))]])
+            else:
+                goals.append(['call', '=', [V(rng.choice(mv)), A(rng.choice(['one', 'two', 'three']))]])
+        for v in rng.sample(mv, rng.randrange(1, 4)):
+            goals.append(['call', '=', [V(v), A(rng.choice(['one', 'two', 'three']))]])
+        clauses.append(['main', [V('A'), V('B'), V('C')], _conj(goals)])
+    queries = [['main', [V('Q0'), V('Q1'), V('Q2')]], ['main', [V('Q0'), V('Q0'), V('Q1')]], ['main', [V('Q0'), A('two'), V('Q1')]]]
     return {'clauses': clauses, 'queries': queries}
 
 # ------------------------------------------------------------------ anonymous variables
